@@ -189,6 +189,8 @@ class Universe:
                     self.fail("C01.shape", f"after step {k}: removed object {o} still has a parent", what="removed-parent", op=st["op"])
                 if loc is not None and getattr(loc, "grid", None) is not None:
                     self.fail("C01.shape", f"after step {k}: removed object {o} still has a location in a grid", what="removed-locator", op=st["op"])
+                if loc is not None and hasattr(loc, "_locations") and any(sub.grid is not None for sub in loc):
+                    self.fail("C01.shape", f"after step {k}: the multi-location of removed object {o} is detached, but its sub-locations still belong to a grid", what="removed-sublocator", op=st["op"])
 
     def check_queries(self, k, st):
         from armi.reactor.components import Component
